@@ -44,7 +44,7 @@ def _rec():
 VALUES = [
     ('none', lambda: None), ('open', lambda: 'open'), ('keep', lambda: 'a\n\n'), ('emptystr', lambda: ''), ('elist', lambda: []),
     ('emap', lambda: {}), ('shared', _shared), ('rec', _rec), ('nested', lambda: {'k': [1, {'j': 'v'}], 'l': 'open'}), ('longkey', lambda: {'k' * 130: 'v'}),
-    ('quoted', lambda: 'a: b'), ('trail', lambda: 'x\n\n\n'),
+    ('quoted', lambda: 'a: b'), ('trail', lambda: 'x\n\n\n'), ('marker-start', lambda: '---'), ('marker-end', lambda: '...'), ('marker-text', lambda: '--- x'),
 ]
 CORE = [0, 1, 2, 4, 6]
 NODE_CORE = [0, 1, 2, 6, 11, 12]
@@ -257,6 +257,77 @@ def lists(pool_n, core, kfull, kcore, first=None):
                 yield t
 
 
+# documents produced on the fly: the same object yielded again after it was changed, and short-lived temporaries whose
+# ids are re-used - every document must be what the value was when it was handed over
+def _g_mutated_list():
+    x = [1]
+    yield x, [1]
+    x.append(2)
+    yield x, [1, 2]
+    x.append([3])
+    yield x, [1, 2, [3]]
+    yield 'between', 'between'
+    x.clear()
+    yield x, []
+
+
+def _g_mutated_dict():
+    d = {'a': 1}
+    s = [d, d]
+    yield s, None
+    d['b'] = s[:1]
+    yield s, None
+    yield d, None
+    del d['b']
+    yield d, {'a': 1}
+
+
+def _g_temporaries():
+    for i in range(40):
+        yield [i, {'k': [i]}], [i, {'k': [i]}]
+
+
+def _g_temporaries_shared():
+    for i in range(30):
+        t = [i]
+        yield {'a': t, 'b': t}, None
+
+
+def _g_same_scalars():
+    s = 'text'
+    for i in range(3):
+        yield [s, s], ['text', 'text']
+
+
+GENERATED = [('mutated-list', _g_mutated_list), ('mutated-dict', _g_mutated_dict), ('temporaries', _g_temporaries), ('temporaries-shared', _g_temporaries_shared),
+             ('same-scalars', _g_same_scalars)]
+
+
+def check_generated(T, name, gen):
+    for dn, SafeD, FullD in DUMPERS:
+        for o in ({}, {'default_flow_style': True}, {'explicit_start': True, 'explicit_end': True}, {'canonical': True}):
+            T.evaluations += 1
+            case = {'generated': name, 'options': o, 'dumper': dn}
+            want = []
+
+            def feed():
+                for value, expect in gen():
+                    want.append(graph.canon(value, ordered=False) if expect is None else graph.canon(expect, ordered=False))
+                    yield value
+            try:
+                text = yaml.dump_all(feed(), Dumper=SafeD, **o)
+                got = [graph.canon(d, ordered=False) for d in yaml.load_all(text, Loader=yaml.SafeLoader)]
+            except Exception as e:
+                T.violation('generated', 'exception:' + type(e).__name__, case, detail=str(e).replace('\n', ' ')[:200])
+                continue
+            if len(got) != len(want):
+                T.violation('generated', 'document-count', case, detail='%s wrote %r: %d documents, %d were handed over' % (dn, _short(text), len(got), len(want)))
+            elif got != want:
+                k = [i for i in range(len(got)) if got[i] != want[i]][0]
+                T.violation('generated', 'document-differs', case, detail='%s: document %d of %r is %s; when it was handed over the value was %s' % (dn, k, _short(text), _short(repr(got[k])), _short(repr(want[k]))))
+    T.nontrivial += 1
+
+
 def plan(tier, seed):
     q = tier == 'quick'
     kf, kc = (2, 3) if q else (3, 4)
@@ -273,6 +344,7 @@ def plan(tier, seed):
     for r in range(len(EV_ROOTS)):
         for m in range(len(EV_MARKS)):
             jobs.append(('events', r, m, 2 if q else 3))
+    jobs += [('generated', k) for k in range(len(GENERATED))]
     return jobs
 
 
@@ -291,6 +363,10 @@ def run_job(job, T):
                 for ids in ls:
                     check_list(T, kind, kind, ids, o, db)
         T.sample(kind, {'docs': [pool[i][0] for i in ls[-1]], 'options': o})
+    elif kind == 'generated':
+        name, gen = GENERATED[job[1]]
+        check_generated(T, name, gen)
+        T.sample('generated', {'generated': name})
     elif kind == 'events':
         _, r, m, k = job
         first = (r, m)
@@ -317,6 +393,9 @@ def run_job(job, T):
 
 
 def replay(sub, case, T):
+    if 'generated' in case:
+        check_generated(T, case['generated'], dict(GENERATED)[case['generated']])
+        return
     opts = dict(case.get('options') or {})
     if isinstance(opts.get('version'), list):
         opts['version'] = tuple(opts['version'])
